@@ -28,7 +28,8 @@ RULE = ("case = one 'naming' history (create/add/remove/re-add, rename, name=Non
         "distinct = (op,outcome) sequence hash; non-trivial = >=5 naming refusals and >=10 accepted renames")
 ASSUMPTIONS = ["EDIF identifier legality: [A-Za-z][A-Za-z0-9_]{0,254} or &[A-Za-z0-9_]{1,255} (EDIF 2 0 0)",
                "under the DEFAULT policy identifiers are free-form and may repeat (documented)"]
-REQUIRED = {"scope_scans": 20000, "lookups_compared": 200000, "naming_edits_judged": 5000}
+REQUIRED = {"scope_scans": 20000, "lookups_compared": 200000, "naming_edits_judged": 5000,
+            "edits_right_after_a_policy_change": 30}
 ALPHABET = gen_ops.NAMES + [x for x in gen_ops.IDS if x not in gen_ops.NAMES]
 LEGAL = re.compile(r"^(?:[A-Za-z][A-Za-z0-9_]{0,254}|&[A-Za-z0-9_]{1,255})$")
 KEYS = (".NAME", "EDIF.identifier")
